@@ -94,8 +94,15 @@ func builtinMathFloor(call FunctionCall) Value {
 	return float64Value(math.Floor(number))
 }
 
+// math.Log (amd64 assembly) does not normalise denormal arguments:
+// math.Log(5e-324) is -709.09 instead of -744.44. Scale them into the normal range.
+const mathMinNormal = 2.2250738585072014e-308
+
 func builtinMathLog(call FunctionCall) Value {
 	number := call.Argument(0).float64()
+	if number > 0 && number < mathMinNormal {
+		return float64Value(math.Log(number*(1<<54)) - 54*math.Ln2)
+	}
 	return float64Value(math.Log(number))
 }
 
@@ -165,6 +172,10 @@ func builtinMathPow(call FunctionCall) Value {
 	}
 	if math.Abs(x) == 1 && math.IsInf(y, 0) {
 		return NaNValue()
+	}
+	if x > 0 && x < mathMinNormal {
+		// math.Pow takes the logarithm of x for fractional y (see builtinMathLog).
+		return float64Value(math.Pow(x*(1<<54), y) * math.Pow(2, -54*y))
 	}
 	return float64Value(math.Pow(x, y))
 }
